@@ -2,6 +2,7 @@ package main
 
 import (
 	"bytes"
+	"encoding/json"
 	"os"
 	"os/exec"
 	"path/filepath"
@@ -446,31 +447,28 @@ func runSender(c *rcase, out *vh.LineWriter, st *vh.Stats) {
 	st.Case(fmt.Sprintf("S%d/%d", len(chunks), len(c.files)), len(chunks) > 1, firstN(c.String(), 300))
 }
 
-func run(a vh.Args) {
-	st := vh.NewStats("distinct receiver cases in which a chunk was refused, a stream was dropped/collected or restarted AND the run continued to a verdict (finalised or collected); sender cases with more than one chunk")
-	out := vh.Create(path.Join(a.Out, "impl.obs"))
-	defer out.Close()
+// isolatedCase: cases in which goroutines of the code under test run (Transport jobs,
+// concurrent Adds). A panic in such a goroutine ends the whole process, so these cases are
+// executed by a child process; a crash is reported against the case that was running.
+func isolatedCase(line string) bool {
+	f := strings.Fields(firstN(line, 400))
+	return len(f) >= 2 && (f[1] == "G" || strings.Contains(firstN(line, 400), " par=1"))
+}
+
+func runLine(line string, out *vh.LineWriter, st *vh.Stats) {
 	gc0, to0, slots0 := hk.SoftSettings()
-	for _, line := range vh.ReadLines(a.Cases) {
-		if strings.HasPrefix(line, "#") {
-			continue
-		}
-		f := strings.Fields(line)
-		if len(f) >= 2 && f[1] == "CONST" {
-			out.Printf("%s CONST cs=%d gc=%d to=%d slots=%d binver=%d last=%d flag=%s hdr=%d\n", f[0],
-				hk.SnapshotChunkSize, gc0, to0, slots0, raftio.TransportBinVersion, pb.LastChunkCount,
-				hexs(hk.SnapshotFlagFilename), hk.SnapshotHeaderSize)
-			st.Case("const", false, "")
-			continue
-		}
-		if len(f) >= 2 && f[1] == "T" {
-			runStream(parseTCase(line), out, st)
-			continue
-		}
-		if len(f) >= 2 && f[1] == "G" {
-			runGlue(parseGCase(line), out, st)
-			continue
-		}
+	f := strings.Fields(firstN(line, 400))
+	switch {
+	case len(f) >= 2 && f[1] == "CONST":
+		out.Printf("%s CONST cs=%d gc=%d to=%d slots=%d binver=%d last=%d flag=%s hdr=%d\n", f[0],
+			hk.SnapshotChunkSize, gc0, to0, slots0, raftio.TransportBinVersion, pb.LastChunkCount,
+			hexs(hk.SnapshotFlagFilename), hk.SnapshotHeaderSize)
+		st.Case("const", false, "")
+	case len(f) >= 2 && f[1] == "T":
+		runStream(parseTCase(line), out, st)
+	case len(f) >= 2 && f[1] == "G":
+		runGlue(parseGCase(line), out, st)
+	default:
 		c := parseCase(line)
 		if c.par {
 			runParallel(c, out, st)
@@ -480,38 +478,154 @@ func run(a vh.Args) {
 			runReceiver(c, out, st)
 		}
 	}
-	if a.Tier == "thorough" && os.Getenv("C15_RACE_CHILD") == "" {
-		raceRun(a, st)
+}
+
+func run(a vh.Args) {
+	st := vh.NewStats("distinct receiver cases in which a chunk was refused, a stream was dropped/collected or restarted AND the run continued to a verdict (finalised or collected); sender cases with more than one chunk; glue cases with an injected failure or a witness snapshot; parallel cases with more than one snapshot")
+	out := vh.Create(path.Join(a.Out, "impl.obs"))
+	defer out.Close()
+	child := os.Getenv("C15_CHILD") != ""
+	nchild := 0
+	var isolated []string
+	for _, line := range vh.ReadLines(a.Cases) {
+		if strings.HasPrefix(line, "#") {
+			continue
+		}
+		if !child && isolatedCase(line) {
+			isolated = append(isolated, line)
+			continue
+		}
+		if child {
+			// progress marker: which case is running if the process dies; every case's
+			// observations go to a file of their own and the statistics are rewritten after
+			// each case, so that a crash loses nothing but the case in progress
+			nchild++
+			_ = os.WriteFile(path.Join(a.Out, "progress"), []byte(strings.Fields(firstN(line, 200))[0]), 0644)
+			o := vh.Create(path.Join(a.Out, fmt.Sprintf("obs-%06d.txt", nchild)))
+			runLine(line, o, st)
+			o.Close()
+			st.Write(a.Out)
+			continue
+		}
+		runLine(line, out, st)
+	}
+	if len(isolated) > 0 {
+		exe, err := os.Executable()
+		if err != nil {
+			panic(err)
+		}
+		runChildren(exe, a, "iso", isolated, out, st, false)
+		// both tiers: the race-enabled build is cached by go build after its first use
+		raceRun(a, isolated, st)
 	}
 	st.Write(a.Out)
 }
 
-// raceRun (thorough tier): the concurrent cases (par=1, G) are run once more by a copy of
-// this harness built with the race detector; a reported data race in the code under
-// test is a violation.
-func raceRun(a vh.Args, st *vh.Stats) {
+// runChildren executes the isolated cases in child processes of binary [exe]; after a
+// crash the case that was running is reported and the remaining cases go to a new child.
+func runChildren(exe string, a vh.Args, tag string, lines []string, out *vh.LineWriter, st *vh.Stats, raceOnly bool) {
+	dir, err := filepath.Abs(filepath.Join(a.Out, tag))
+	if err != nil {
+		panic(err)
+	}
+	rest := lines
+	for round := 0; len(rest) > 0 && round < 6; round++ {
+		_ = os.RemoveAll(dir)
+		if err := os.MkdirAll(dir, 0755); err != nil {
+			panic(err)
+		}
+		cf := filepath.Join(dir, "cases.txt")
+		if err := os.WriteFile(cf, []byte(strings.Join(rest, "\n")+"\n"), 0644); err != nil {
+			panic(err)
+		}
+		cmd := exec.Command(exe, "run", "-tier", a.Tier, "-seed", fmt.Sprint(a.Seed), "-cases", cf, "-out", dir)
+		cmd.Env = append(os.Environ(), "C15_CHILD=1", "GORACE=halt_on_error=0")
+		outb, err := cmd.CombinedOutput()
+		text := string(outb)
+		if i := strings.Index(text, "WARNING: DATA RACE"); i >= 0 {
+			st.Violation("race", "DATA-RACE reported by the race detector on the concurrent cases: "+firstN(strings.ReplaceAll(text[i:], "\n", " | "), 700))
+		}
+		if !raceOnly {
+			// what the child observed and judged
+			files, _ := filepath.Glob(filepath.Join(dir, "obs-*.txt"))
+			sort.Strings(files)
+			for _, fn := range files {
+				if b, e := os.ReadFile(fn); e == nil {
+					for _, l := range strings.Split(string(b), "\n") {
+						if l != "" {
+							out.Printf("%s\n", l)
+						}
+					}
+				}
+			}
+			if b, e := os.ReadFile(filepath.Join(dir, "stats.json")); e == nil {
+				var cs vh.Stats
+				if json.Unmarshal(b, &cs) == nil {
+					st.Evaluations += cs.Evaluations
+					st.DistinctNontrivial += cs.DistinctNontrivial
+					for k, v := range cs.Distribution {
+						st.Distribution[k] += v
+					}
+					st.MonitorViolations = append(st.MonitorViolations, cs.MonitorViolations...)
+					for _, s := range cs.Samples {
+						if len(st.Samples) < 5 {
+							st.Samples = append(st.Samples, s)
+						}
+					}
+				}
+			}
+		}
+		if err == nil {
+			break
+		}
+		// the child died: blame the case in progress and go on behind it
+		pb, _ := os.ReadFile(filepath.Join(dir, "progress"))
+		cur := strings.TrimSpace(string(pb))
+		idx := -1
+		for i, l := range rest {
+			if strings.Fields(firstN(l, 200))[0] == cur {
+				idx = i
+			}
+		}
+		tail := text
+		if i := strings.Index(text, "panic:"); i >= 0 {
+			tail = text[i:]
+		} else if i := strings.Index(text, "fatal error:"); i >= 0 {
+			tail = text[i:]
+		} else if len(tail) > 600 {
+			tail = tail[len(tail)-600:]
+		}
+		msg := "PROCESS-CRASH the process died while this case ran goroutines of the code under test (" + tag + "): " +
+			firstN(strings.ReplaceAll(tail, "\n", " | "), 500)
+		if idx < 0 {
+			st.Violation("crash", msg)
+			break
+		}
+		if !raceOnly {
+			out.Printf("%s crashed\n", cur)
+		}
+		st.Violation(cur, msg)
+		rest = rest[idx+1:]
+	}
+	_ = os.RemoveAll(dir)
+}
+
+// raceRun: the isolated cases are run once more by a copy of this harness
+// built with the race detector; a reported data race in the code under test is a violation.
+func raceRun(a vh.Args, lines []string, st *vh.Stats) {
 	exe, err := os.Executable()
 	if err != nil {
 		return
 	}
 	src := filepath.Join(filepath.Dir(exe), "..", "..", "harness")
-	var sel []string
-	for _, line := range vh.ReadLines(a.Cases) {
-		f := strings.Fields(line)
-		if len(f) >= 2 && (f[1] == "G" || strings.Contains(line[:min(len(line), 200)], " par=1")) {
-			sel = append(sel, line)
-		}
-	}
-	if len(sel) == 0 {
-		return
-	}
-	dir, err := filepath.Abs(filepath.Join(a.Out, "race"))
+	dir, err := filepath.Abs(filepath.Join(a.Out, "racebin"))
 	if err != nil {
 		return
 	}
 	if err := os.MkdirAll(dir, 0755); err != nil {
 		return
 	}
+	defer os.RemoveAll(dir)
 	bin := filepath.Join(dir, "c15race")
 	build := exec.Command("go", "build", "-race", "-tags", "verif", "-o", bin, "./cmd/c15")
 	build.Dir = src
@@ -520,19 +634,6 @@ func raceRun(a vh.Args, st *vh.Stats) {
 		st.Notes["race"] = "race build not available: " + firstN(string(outb), 200)
 		return
 	}
-	cf := filepath.Join(dir, "cases.txt")
-	if err := os.WriteFile(cf, []byte(strings.Join(sel, "\n")+"\n"), 0644); err != nil {
-		return
-	}
-	run := exec.Command(bin, "run", "-tier", "thorough", "-cases", cf, "-out", dir)
-	run.Env = append(os.Environ(), "C15_RACE_CHILD=1", "GORACE=halt_on_error=0")
-	outb, err := run.CombinedOutput()
-	text := string(outb)
-	if i := strings.Index(text, "WARNING: DATA RACE"); i >= 0 {
-		st.Violation("race", "DATA-RACE reported by the race detector on the concurrent cases: "+firstN(strings.ReplaceAll(text[i:], "\n", " | "), 600))
-	} else if err != nil {
-		st.Violation("race", "RACE-RUN the race-enabled harness failed: "+err.Error()+" "+firstN(text, 300))
-	}
-	st.Notes["race"] = fmt.Sprintf("%d concurrent cases re-run under -race", len(sel))
-	_ = os.RemoveAll(dir)
+	runChildren(bin, a, "race", lines, nil, st, true)
+	st.Notes["race"] = fmt.Sprintf("%d concurrent cases re-run under -race", len(lines))
 }
